@@ -1,10 +1,10 @@
 (* ConnProofsC4.v — C16: the inflight window.
    c16_bound is FALSE of the model (and of the code): on a resumed connection every
    stored packet is re-sent, "continue if depleted" (client.go:607-630), so the bound
-   is exceeded whenever the outgoing store holds more PUBLISH packets than the window
-   of the new connection (ConnProofsCTraces: tr_c16_shrink, tr_c16_spurious).
+   is exceeded whenever the outgoing store holds more packets than the window of the
+   new connection (ConnProofsCTraces.tr_c16_shrink).
    c16_bound holds of every accepted trace on which, at each resume, the store lists
-   at most W PUBLISH packets (c16_resume_fits). *)
+   at most W packets (c16_resume_fits). *)
 From Coq Require Import List NArith Bool Lia ZArith ZifyN ZifyNat ZifyBool.
 From GM Require Import Base.Lts Codec.Packet Session.Ids Session.Store Session.StoreProofs
   Broker.Conn Broker.ConnSpec Broker.ConnBase Broker.ConnProofsCDefs Broker.ConnProofsC0 Broker.ConnProofsC1 Broker.ConnProofsCTraces.
@@ -31,6 +31,17 @@ Section Scan2.
     destruct (Hstep s t u e s1 u1 Hi HR E Eh) as (t' & Ef & HR'). rewrite Ef.
     eapply IH; [eapply HIstep; eassumption|exact HR'|exact Hrun|exact Hh].
   Qed.
+  (* the same induction, keeping the final states *)
+  Lemma scan2_rel : forall es s t u s', I s -> R s t u -> Lts.run step s es = Some s' ->
+    scan h u es = true -> exists t' u', srun f t es = Some t' /\ R s' t' u'.
+  Proof.
+    induction es as [|e es IH]; intros s t u s' Hi HR Hrun Hh.
+    - cbn in Hrun. injection Hrun as <-. exists t, u. split; [reflexivity|exact HR].
+    - cbn [Lts.run] in Hrun. destruct (step s e) as [s1|] eqn:E; [|discriminate].
+      cbn [scan] in Hh. destruct (h u e) as [u1|] eqn:Eh; [|discriminate].
+      destruct (Hstep s t u e s1 u1 Hi HR E Eh) as (t1 & Ef & HR1).
+      cbn [srun]. rewrite Ef. eapply IH; [eapply HIstep; eassumption|exact HR1|exact Hrun|exact Hh].
+  Qed.
   Theorem scan2_sound t0 u0 : R bc_init t0 u0 ->
     forall es s', bc_run es = Some s' -> scan h u0 es = true -> scan f t0 es = true.
   Proof. intros H0 es s' Hrun Hh. eapply scan2_from; [exact HI0|exact H0|exact Hrun|exact Hh]. Qed.
@@ -40,104 +51,183 @@ End Scan2.
 
 Definition pre_setup (p : ppc) : bool :=
   match p with PFirst | PAuth _ | PDeny | PSetup _ => true | _ => false end.
+(* phases of a connection in which nothing can be in flight yet *)
+Definition early (p : ppc) : bool :=
+  match p with PFirst | PAuth _ | PDeny | PSetup _ | PConnack _ _ | PAll => true | _ => false end.
 
-(* model / hypothesis part: the hypothesis scanner knows the window; no window before Setup *)
-Definition RA (s : bc) (u : N) : Prop := u = cw s /\ (pre_setup (pp s) = true -> cw s = 0).
+Definition is_setup_ok (e : event) : bool := match e with ESetup _ (SOk _ _ _ _ _) => true | _ => false end.
 
-(* |in flight| + free slots + slot held by the dequeuer + slot about to be returned <= W *)
-Definition RB (s : bc) (t : wb_st) : Prop :=
-  wb_spur t = true \/
-  (wb_w t = cw s /\
-   N.of_nat (length (wb_fl t)) + tdeq s + held (dp s) + credit (pp s) <= cw s /\
-   match pp s with
-   | PResend rest => N.of_nat (length (wb_fl t)) + N.of_nat (npub rest) <= cw s
-   | PConnack _ _ | PAll => wb_fl t = []
-   | _ => True
-   end).
+(* the window as a function of the event *)
+Definition next_w (w : N) (e : event) : N :=
+  match e with ENewConn => 0 | ESetup _ (SOk _ _ w' _ _) => w' | _ => w end.
 
-Lemma RA_proc s u e s' u' : RA s u -> step_proc s e = Some s' -> rf_step u e = Some u' -> RA s' u'.
+Lemma step_proc_cw s e s' : step_proc s e = Some s' -> cw s' = next_w (cw s) e.
 Proof.
-  intros [Hu Hp] H Hh. unfold step_proc, proc_dispatch, die_p, guard in H.
-  inv_step H; inv_helpers; injection H as <-; subst; cbn [pre_setup] in Hp; cbn [rf_step] in Hh.
-  all: try (injection Hh as <-; split; bcsimpl; cbn [pre_setup]; try reflexivity; try discriminate; try exact Hp; fail).
-  - destruct (N.of_nat (npub l) <=? cw s); [|discriminate]. injection Hh as <-.
-    destruct l; split; bcsimpl; cbn [pre_setup]; try reflexivity; discriminate.
-  - injection Hh as <-. unfold take_deq_if_any, take_deq.
-    destruct (0 <? tdeq s); destruct l; split; bcsimpl; cbn [pre_setup]; try reflexivity; discriminate.
-  - injection Hh as <-. unfold take_deq_if_any, take_deq.
-    destruct (0 <? tdeq s); split; bcsimpl; cbn [pre_setup]; try reflexivity; discriminate.
+  intros H. unfold step_proc, proc_dispatch, die_p, guard in H.
+  inv_step H; inv_helpers; injection H as <-; subst; bcsimpl; cbn [next_w]; try reflexivity.
+  all: unfold take_deq_if_any, take_deq; destruct (0 <? tdeq s); reflexivity.
 Qed.
 
-Lemma RA_frame s s' u : cw s' = cw s -> (pre_setup (pp s') = true -> pre_setup (pp s) = true) -> RA s u -> RA s' u.
-Proof. intros Ec Ep [Hu Hp]. split; rewrite Ec; [exact Hu|intros H; apply Hp, Ep, H]. Qed.
+Lemma step_deq_cw s e s' : step_deq s e = Some s' -> cw s' = next_w (cw s) e.
+Proof.
+  intros H. unfold step_deq, guard in H.
+  inv_step H; inv_helpers; injection H as <-; subst; bcsimpl; cbn [next_w]; try reflexivity.
+  all: repeat match goal with |- context[match ?x with _ => _ end] => destruct x end; reflexivity.
+Qed.
 
-Lemma RA_same s s' u : same_pd s s' -> RA s u -> RA s' u.
-Proof. intros Hs. apply RA_frame; [apply (sp_cw _ _ Hs)|rewrite (sp_pp _ _ Hs); exact (fun x => x)]. Qed.
-
-Lemma RA_frozen s s' u : frozen s s' -> RA s u -> RA s' u.
-Proof. intros Hf. apply RA_frame; [apply (fz_cw _ _ Hf)|rewrite (fz_pp _ _ Hf); discriminate]. Qed.
-
-Lemma RA_learned s s1 u : learned s s1 -> RA s u -> RA s1 u.
-Proof. intros [->|(g & _ & [[_ ->]|[[_ ->]|[[_ ->]|[_ ->]]]])] HR; exact HR. Qed.
-
-Lemma rf_step_other u e :
-  match e with ENewConn | ESetup _ _ | EAll _ _ _ => False | _ => True end -> rf_step u e = Some u.
+Lemma next_w_other w e : match e with ENewConn | ESetup _ _ => False | _ => True end -> next_w w e = w.
 Proof. destruct e; try contradiction; reflexivity. Qed.
 
-Lemma RA_deq s u e s' u' : RA s u -> step_deq s e = Some s' -> rf_step u e = Some u' -> RA s' u'.
+Lemma step_cw s e s' : step s e = Some s' -> cw s' = next_w (cw s) e.
 Proof.
-  intros HR H Hh. unfold step_deq, guard in H.
-  inv_step H; inv_helpers; injection H as <-; subst; cbn [rf_step] in Hh; injection Hh as <-.
-  all: try ((eapply RA_frame; [| |exact HR]); bcsimpl; [reflexivity|exact (fun x => x)]).
-  destruct p; try ((eapply RA_frame; [| |exact HR]); bcsimpl; [reflexivity|exact (fun x => x)]).
-  destruct (m_qos m =? 0); (eapply RA_frame; [| |exact HR]); bcsimpl; try reflexivity; exact (fun x => x).
+  intros H. apply step_inv in H.
+  destruct H as [He Ho ->|He Ho ->|He Hq ->|Hc|g s1 Hg Hl Hr Ho Hp|g s1 Hg Hl Hr Ho Hnp Hd
+                |g s1 Hg Hl Hr Ho Hnp Hnd Ha|g s1 Hg Hl Hr Ho Hc|He Hc|g He Ho ->]; try (subst e; reflexivity).
+  - apply step_clo_sum in Hc as (He & Hs & _). rewrite (sp_cw _ _ Hs), next_w_other; [reflexivity|destruct e; try contradiction; exact I].
+  - assert (E : cw s1 = cw s) by (destruct Hl as [->|(g0 & _ & [[_ ->]|[[_ ->]|[[_ ->]|[_ ->]]]])]; reflexivity).
+    rewrite <- E. apply step_proc_cw. exact Hp.
+  - assert (E : cw s1 = cw s) by (destruct Hl as [->|(g0 & _ & [[_ ->]|[[_ ->]|[[_ ->]|[_ ->]]]])]; reflexivity).
+    rewrite <- E. apply step_deq_cw. exact Hd.
+  - assert (E : cw s1 = cw s) by (destruct Hl as [->|(g0 & _ & [[_ ->]|[[_ ->]|[[_ ->]|[_ ->]]]])]; reflexivity).
+    pose proof (step_ack_sum _ _ _ Ha) as (Hs & _ & He). rewrite (sp_cw _ _ Hs), E, next_w_other; [reflexivity|destruct e; try contradiction; exact I].
+  - assert (E : cw s1 = cw s) by (destruct Hl as [->|(g0 & _ & [[_ ->]|[[_ ->]|[[_ ->]|[_ ->]]]])]; reflexivity).
+    apply step_cleanup_sum in Hc as (He & Hc).
+    rewrite next_w_other by (destruct e; try contradiction; exact I).
+    destruct Hc as [(Hs & _)|Hf]; [rewrite (sp_cw _ _ Hs)|rewrite (fz_cw _ _ Hf)]; exact E.
+  - apply step_cleanup_sum in Hc as (He' & Hc). subst e. cbn [next_w].
+    destruct Hc as [(Hs & _)|Hf]; [apply (sp_cw _ _ Hs)|apply (fz_cw _ _ Hf)].
+Qed.
+
+(* the hypothesis scanner of c16_resume_fits knows the window *)
+Definition RA (s : bc) (u : N) : Prop := u = cw s.
+
+Lemma rf_step_w u e u' : rf_step u e = Some u' -> u' = next_w u e.
+Proof.
+  destruct e; cbn [rf_step next_w]; intros H; try (injection H as <-; reflexivity).
+  - destruct r; injection H as <-; reflexivity.
+  - destruct d; try (injection H as <-; reflexivity). destruct r as [ps|]; [|injection H as <-; reflexivity].
+    destruct (N.of_nat (length ps) <=? u); [injection H as <-; reflexivity|discriminate].
 Qed.
 
 Lemma RA_step s u e s' u' : RA s u -> step s e = Some s' -> rf_step u e = Some u' -> RA s' u'.
+Proof. unfold RA. intros -> H Hh. rewrite (step_cw _ _ _ H). apply rf_step_w. exact Hh. Qed.
+
+(* what a resume needs: the listing fits the window *)
+Definition fits (s : bc) (e : event) : Prop :=
+  forall g ps, e = EAll g Outgoing (Some ps) -> N.of_nat (length ps) <= cw s.
+
+Lemma fits_of_rf s u e u' : RA s u -> rf_step u e = Some u' -> fits s e.
 Proof.
-  intros HR H Hh. apply step_inv in H.
-  destruct H as [He Ho ->|He Ho ->|He Hq ->|Hc|g s1 Hg Hl Hr Ho Hp|g s1 Hg Hl Hr Ho Hnp Hd
-                |g s1 Hg Hl Hr Ho Hnp Hnd Ha|g s1 Hg Hl Hr Ho Hc|He Hc|g He Ho ->].
-  - subst e. cbn [rf_step] in Hh. injection Hh as <-. split; bcsimpl; reflexivity.
-  - subst e. cbn [rf_step] in Hh. injection Hh as <-. exact HR.
-  - subst e. cbn [rf_step] in Hh. injection Hh as <-. exact HR.
-  - apply step_clo_sum in Hc as (He & Hs & _). rewrite rf_step_other in Hh by (destruct e; try contradiction; exact I).
-    injection Hh as <-. eapply RA_same; eassumption.
-  - eapply RA_proc; [eapply RA_learned; eassumption|exact Hp|exact Hh].
-  - eapply RA_deq; [eapply RA_learned; eassumption|exact Hd|exact Hh].
-  - pose proof (step_ack_sum _ _ _ Ha) as (Hs & _ & He).
-    rewrite rf_step_other in Hh by (destruct e; try contradiction; exact I).
-    injection Hh as <-. eapply RA_same; [exact Hs|eapply RA_learned; eassumption].
-  - apply step_cleanup_sum in Hc as (He & Hc).
-    rewrite rf_step_other in Hh by (destruct e; try contradiction; exact I). injection Hh as <-.
-    destruct Hc as [(Hs & _)|Hf]; [eapply RA_same|eapply RA_frozen]; try eassumption; eapply RA_learned; eassumption.
-  - apply step_cleanup_sum in Hc as (He' & Hc).
-    rewrite rf_step_other in Hh by (destruct e; try contradiction; exact I). injection Hh as <-.
-    destruct Hc as [(Hs & _)|Hf]; [eapply RA_same|eapply RA_frozen]; eassumption.
-  - subst e. cbn [rf_step] in Hh. injection Hh as <-. (eapply RA_frame; [| |exact HR]); [reflexivity|exact (fun x => x)].
+  unfold RA. intros -> H g ps ->. cbn [rf_step] in H.
+  destruct (N.leb_spec (N.of_nat (length ps)) (cw s)) as [Hle|]; [exact Hle|discriminate].
 Qed.
 
-Lemma wb_step_spur t e : wb_spur t = true -> e <> ENewConn ->
+(* always: the scanner knows the window, and nothing is in flight in the early phases *)
+Definition RW (s : bc) (t : wb_st) : Prop := wb_w t = cw s /\ (early (pp s) = true -> wb_fl t = []).
+
+Lemma wb_step_w t e t' : wb_step t e = Some t' -> wb_w t' = next_w (wb_w t) e.
+Proof.
+  destruct e; cbn [wb_step next_w]; intros H; try (injection H as <-; reflexivity).
+  - destruct p; try (injection H as <-; reflexivity);
+      destruct (nmem id (wb_fl t)); injection H as <-; reflexivity.
+  - destruct p; try (injection H as <-; reflexivity).
+    + destruct ok; [|injection H as <-; reflexivity]. destruct (m_qos m =? 0); [injection H as <-; reflexivity|].
+      match type of H with (if ?b then _ else _) = _ => destruct b end; [injection H as <-; reflexivity|discriminate].
+    + destruct ok; [|injection H as <-; reflexivity].
+      match type of H with (if ?b then _ else _) = _ => destruct b end; [injection H as <-; reflexivity|discriminate].
+  - destruct r; injection H as <-; reflexivity.
+Qed.
+
+(* the in-flight list stays empty under every event but a successful PUBLISH / PUBREL send *)
+Definition tx_counted (e : event) : bool :=
+  match e with ETx _ (Publish _ _ _) _ true | ETx _ (Pubrel _) _ true => true | _ => false end.
+
+Lemma wb_step_fl_nil t e t' : wb_step t e = Some t' -> wb_fl t = [] -> tx_counted e = false -> wb_fl t' = [].
+Proof.
+  intros H Hn Hc. destruct e; cbn [wb_step] in H; try (injection H as <-; exact Hn).
+  - reflexivity || (injection H as <-; reflexivity).
+  - destruct p; try (injection H as <-; exact Hn); rewrite Hn in H; cbn [nmem existsb] in H; injection H as <-; first [exact Hn|reflexivity].
+  - destruct p; try (injection H as <-; exact Hn); destruct ok; try discriminate Hc; injection H as <-; exact Hn.
+  - destruct r; injection H as <-; exact Hn.
+Qed.
+
+Lemma RW_proc s t e s' t' : RW s t -> step_proc s e = Some s' -> wb_step t e = Some t' ->
+  early (pp s') = true -> wb_fl t' = [].
+Proof.
+  intros [_ Hfl] H Hw. unfold step_proc, proc_dispatch, die_p, guard in H.
+  inv_step H; inv_helpers; injection H as <-; subst; bcsimpl; cbn [early] in *; intros He; try discriminate He.
+  all: try (eapply wb_step_fl_nil; [exact Hw|apply Hfl; reflexivity|reflexivity]).
+  all: destruct l; discriminate He.
+Qed.
+
+Lemma RW_step s t e s' t' : INV s -> RW s t -> step s e = Some s' -> wb_step t e = Some t' -> RW s' t'.
+Proof.
+  intros HI HR H Hw. split.
+  { rewrite (step_cw _ _ _ H), (wb_step_w _ _ _ Hw). destruct HR as [-> _]. reflexivity. }
+  apply step_inv in H.
+  destruct H as [He Ho ->|He Ho ->|He Hq ->|Hc|g s1 Hg Hl Hr Ho Hp|g s1 Hg Hl Hr Ho Hnp Hd
+                |g s1 Hg Hl Hr Ho Hnp Hnd Ha|g s1 Hg Hl Hr Ho Hc|He Hc|g He Ho ->].
+  - subst e. cbn [wb_step] in Hw. injection Hw as <-. intros _. reflexivity.
+  - subst e. cbn [wb_step] in Hw. injection Hw as <-. apply HR.
+  - subst e. cbn [wb_step] in Hw. injection Hw as <-. apply HR.
+  - apply step_clo_sum in Hc as (He & Hs & _). rewrite (sp_pp _ _ Hs). intros Hx.
+    eapply wb_step_fl_nil; [exact Hw|apply HR; exact Hx|destruct e; try contradiction; reflexivity].
+  - assert (HR1 : RW s1 t) by (destruct Hl as [->|(g0 & _ & [[_ ->]|[[_ ->]|[[_ ->]|[_ ->]]]])]; exact HR).
+    eapply RW_proc; eassumption.
+  - (* the dequeuer does not run in the early phases *)
+    assert (E : pp s1 = pp s /\ dp s1 = dp s) by (destruct Hl as [->|(g0 & _ & [[_ ->]|[[_ ->]|[[_ ->]|[_ ->]]]])]; split; reflexivity).
+    destruct E as [Ep Ed]. assert (Epp : pp s' = pp s1).
+    { unfold step_deq, guard in Hd. inv_step Hd; inv_helpers; injection Hd as <-; try reflexivity.
+      all: repeat match goal with |- context[match ?x with _ => _ end] => destruct x end; reflexivity. }
+    rewrite Epp, Ep. intros Hx. exfalso.
+    assert (Hpl : pre_loop (pp s) = true) by (destruct (pp s); try discriminate Hx; reflexivity).
+    destruct (I_pre _ HI Hpl) as [Hoff _]. unfold step_deq in Hd. rewrite Ed, Hoff in Hd. discriminate Hd.
+  - assert (E : pp s1 = pp s /\ ap s1 = ap s) by (destruct Hl as [->|(g0 & _ & [[_ ->]|[[_ ->]|[[_ ->]|[_ ->]]]])]; split; reflexivity).
+    destruct E as [Ep Ea]. pose proof (step_ack_sum _ _ _ Ha) as (Hs & _ & _).
+    rewrite (sp_pp _ _ Hs), Ep. intros Hx. exfalso.
+    assert (Hpl : pre_loop (pp s) = true) by (destruct (pp s); try discriminate Hx; reflexivity).
+    destruct (I_pre _ HI Hpl) as [_ Hoff]. unfold step_ack in Ha. rewrite Ea, Hoff in Ha. discriminate Ha.
+  - assert (E : pp s1 = pp s) by (destruct Hl as [->|(g0 & _ & [[_ ->]|[[_ ->]|[[_ ->]|[_ ->]]]])]; reflexivity).
+    apply step_cleanup_sum in Hc as (He & Hc).
+    destruct Hc as [(Hs & _)|Hf]; [|rewrite (fz_pp _ _ Hf); discriminate].
+    rewrite (sp_pp _ _ Hs), E. intros Hx.
+    eapply wb_step_fl_nil; [exact Hw|apply HR; exact Hx|destruct e; try contradiction; reflexivity].
+  - subst e. cbn [wb_step] in Hw. injection Hw as <-.
+    apply step_cleanup_sum in Hc as (_ & [(Hs & _)|Hf]); [rewrite (sp_pp _ _ Hs); apply HR|rewrite (fz_pp _ _ Hf); discriminate].
+  - subst e. cbn [wb_step] in Hw. injection Hw as <-. apply HR.
+Qed.
+
+(* unless the peer sent a spurious acknowledgement in this session:
+   |in flight| + free slots + slot held by the dequeuer + slot about to be returned <= W *)
+Definition RB (s : bc) (t : wb_st) : Prop :=
+  wb_spur t = true \/
+  (N.of_nat (length (wb_fl t)) + tdeq s + held (dp s) + credit (pp s) <= cw s /\
+   match pp s with
+   | PResend rest => N.of_nat (length (wb_fl t)) + N.of_nat (length rest) <= cw s
+   | PRecSave id | PRelTx id => nmem id (wb_fl t) = true
+   | _ => True
+   end).
+
+Lemma wb_step_spur t e : wb_spur t = true -> is_setup_ok e = false ->
   exists t', wb_step t e = Some t' /\ wb_spur t' = true.
 Proof.
-  intros Hs Hne. destruct e; try contradiction; try (eexists; split; [reflexivity|exact Hs]).
+  intros Hs Hne. destruct e; try discriminate Hne; try (eexists; split; [reflexivity|exact Hs]).
   - (* ERx *) destruct p; try (eexists; split; [reflexivity|exact Hs]);
       cbn [wb_step]; destruct (nmem id (wb_fl t)); eexists; (split; [reflexivity|]); try exact Hs; reflexivity.
   - (* ETx *) destruct p; try (eexists; split; [reflexivity|exact Hs]).
-    destruct ok; [|eexists; split; [reflexivity|exact Hs]].
-    cbn [wb_step]. destruct (m_qos m =? 0); [eexists; split; [reflexivity|exact Hs]|].
-    rewrite Hs. cbn [orb]. eexists; split; [reflexivity|reflexivity].
-  - (* ESetup *) destruct r; eexists; (split; [reflexivity|exact Hs]).
+    + destruct ok; [|eexists; split; [reflexivity|exact Hs]].
+      cbn [wb_step]. destruct (m_qos m =? 0); [eexists; split; [reflexivity|exact Hs]|].
+      rewrite Hs. cbn [orb]. eexists; split; [reflexivity|reflexivity].
+    + destruct ok; [|eexists; split; [reflexivity|exact Hs]].
+      cbn [wb_step]. rewrite Hs. cbn [orb]. eexists; split; [reflexivity|reflexivity].
+  - (* ESetup *) destruct r; [eexists; split; [reflexivity|exact Hs]|discriminate Hne].
 Qed.
 
 Lemma step_proc_newconn s : step_proc s ENewConn = None.
 Proof. unfold step_proc. destruct (pp s) as [| | | | | |ps| | | | | | | | | | | | | | | | | | | | | |]; cbv beta iota; try reflexivity. destruct ps; reflexivity. Qed.
 
-Lemma set_dup_is_publish q p : packet_eqb q (set_dup p) = true -> is_publish q = is_publish p.
-Proof. destruct q, p; cbn [set_dup packet_eqb is_publish]; intros H; try discriminate H; reflexivity. Qed.
-
-Lemma npub_cons p l : npub (p :: l) = if is_publish p then S (npub l) else npub l.
-Proof. unfold npub. cbn [filter]. destruct (is_publish p); reflexivity. Qed.
+Lemma RB_spur s t : wb_spur t = true -> RB s t.
+Proof. intros H. left. exact H. Qed.
 
 (* the scanner's reaction to an acknowledgement *)
 Lemma wb_rx_ack t g p id : p = Puback id \/ p = Pubcomp id ->
@@ -152,135 +242,193 @@ Proof.
   - right. destruct Hp as [->| ->]; cbn [wb_step]; rewrite En; reflexivity.
 Qed.
 
-(* the scanner's reaction to a successful send of a packet *)
-Lemma wb_tx_cases t g p a :
-  (wb_step t (ETx g p a true) = Some t /\ (is_publish p = false \/ exists d m id, p = Publish d m id /\ (m_qos m =? 0) = true)) \/
-  (exists d m id fl, p = Publish d m id /\ (m_qos m =? 0) = false /\ (length fl <= S (length (wb_fl t)))%nat /\
-     wb_step t (ETx g p a true) =
-     if wb_spur t || (N.of_nat (length fl) <=? wb_w t) then Some (WbSt (wb_w t) fl (wb_spur t)) else None).
+(* the packets that count as in flight once sent *)
+Definition counted_id (p : packet) : option N :=
+  match p with
+  | Publish _ m id => if m_qos m =? 0 then None else Some id
+  | Pubrel id => Some id
+  | _ => None
+  end.
+
+Definition fl_add (id : N) (fl : list N) : list N := if nmem id fl then fl else id :: fl.
+
+Lemma fl_add_length id fl : (length (fl_add id fl) <= S (length fl))%nat.
+Proof. unfold fl_add. destruct (nmem id fl); cbn [length]; lia. Qed.
+
+Lemma wb_tx_ok t g p a :
+  wb_step t (ETx g p a true) =
+  match counted_id p with
+  | None => Some t
+  | Some id => if wb_spur t || (N.of_nat (length (fl_add id (wb_fl t))) <=? wb_w t)
+               then Some (WbSt (wb_w t) (fl_add id (wb_fl t)) (wb_spur t)) else None
+  end.
 Proof.
-  destruct p; try (left; split; [reflexivity|left; reflexivity]).
-  destruct (m_qos m =? 0) eqn:Eq.
-  - left. split; [cbn [wb_step]; rewrite Eq; reflexivity|right; exists dup, m, id; split; [reflexivity|exact Eq]].
-  - right. exists dup, m, id, (if nmem id (wb_fl t) then wb_fl t else id :: wb_fl t).
-    split; [reflexivity|]. split; [exact Eq|]. split; [destruct (nmem id (wb_fl t)); cbn [length]; lia|].
-    cbn [wb_step]. rewrite Eq. reflexivity.
+  destruct p; cbn [wb_step counted_id]; try reflexivity.
+  destruct (m_qos m =? 0); reflexivity.
 Qed.
 
-Lemma RB_spur s t : wb_spur t = true -> RB s t.
-Proof. intros H. left. exact H. Qed.
+Lemma wb_tx_fail t g p a : wb_step t (ETx g p a false) = Some t.
+Proof. destruct p; reflexivity. Qed.
+
+Lemma counted_set_dup q p : packet_eqb q (set_dup p) = true -> counted_id q = counted_id p.
+Proof.
+  destruct q, p; cbn [set_dup packet_eqb counted_id]; intros H; try discriminate H; try reflexivity.
+  - apply andb_prop in H as [H H3]. apply andb_prop in H as [_ H2]. apply message_eqb_eq in H2. apply N.eqb_eq in H3.
+    subst. reflexivity.
+  - apply N.eqb_eq in H. subst. reflexivity.
+Qed.
 
 Ltac rb_easy := right; bcsimpl; cbn [credit held deq_busy]; repeat split; first [assumption|lia|exact I].
 
-Lemma RB_proc s t u e s' : INV s -> RA s u -> RB s t -> step_proc s e = Some s' ->
-  (exists u', rf_step u e = Some u') ->
+(* Setup starts the accounting afresh, whatever happened before *)
+Lemma RB_setup (s : bc) (t : wb_st) (c : connect) (g : N) (resumed fresh : bool) (w p b : N) :
+  INV s -> RW s t -> pp s = PSetup c ->
+  RB (BC (conn_no (if fresh then set_sess s session_new else s)) (sess (if fresh then set_sess s session_new else s))
+         (clos (if fresh then set_sess s session_new else s)) (gproc (if fresh then set_sess s session_new else s))
+         (gdeq (if fresh then set_sess s session_new else s)) (gack (if fresh then set_sess s session_new else s))
+         (gcl (if fresh then set_sess s session_new else s)) (ph (if fresh then set_sess s session_new else s))
+         (PConnack c resumed) (dp (if fresh then set_sess s session_new else s))
+         (ap (if fresh then set_sess s session_new else s)) (lp (if fresh then set_sess s session_new else s))
+         (dying (if fresh then set_sess s session_new else s)) (c_will c) w p b w p b [])
+     (WbSt w (wb_fl t) (if fresh then false else wb_spur t)) /\
+  wb_step t (ESetup g (SOk resumed fresh w p b)) = Some (WbSt w (wb_fl t) (if fresh then false else wb_spur t)).
+Proof.
+  intros HI [_ Hfl] Hp. split; [|reflexivity].
+  assert (Hn : wb_fl t = []) by (apply Hfl; rewrite Hp; reflexivity).
+  assert (Hd : dp s = DOff) by (apply (I_pre _ HI); rewrite Hp; reflexivity).
+  right. destruct fresh; bcsimpl; cbn [wb_fl credit]; rewrite Hn, Hd; cbn [held deq_busy length]; split; try exact I; lia.
+Qed.
+
+Lemma RB_proc s t e s' : INV s -> RW s t -> RB s t -> step_proc s e = Some s' -> wb_spur t = true \/ fits s e ->
   exists t', wb_step t e = Some t' /\ RB s' t'.
 Proof.
-  intros HI [Hu Hps] HR H Hh.
-  destruct HR as [Hsp|HB].
-  { destruct (wb_step_spur t e Hsp) as (t' & E & Hsp').
-    - intros ->. rewrite step_proc_newconn in H. discriminate H.
-    - exists t'. split; [exact E|apply RB_spur; exact Hsp']. }
-  pose proof (I_pre _ HI) as Hpre. pose proof (I_resend _ HI) as Hrs.
+  intros HI HW HR H Hh.
+  assert (Hcase : wb_spur t = true \/ (wb_spur t = false /\ fits s e)).
+  { destruct (wb_spur t) eqn:Es; [left; reflexivity|right; split; [reflexivity|]]. destruct Hh as [C|Hh]; [discriminate C|exact Hh]. }
+  clear Hh. destruct Hcase as [Hsp|[Hns Hh]].
+  { destruct (is_setup_ok e) eqn:Ese.
+    - destruct e; try discriminate Ese. destruct r as [|resumed fresh w p b]; [discriminate Ese|].
+      unfold step_proc in H. destruct (pp s) as [| | | | | |ps| | | | | | | | | | | | | | | | | | | | | |] eqn:Ep;
+        try discriminate H; [|destruct ps; discriminate H]. cbv beta iota zeta in H. unfold guard in H.
+      destruct ((0 <? w) && (0 <? p) && (0 <? b)); [|discriminate H]. injection H as <-.
+      destruct (RB_setup s t c g resumed fresh w p b HI HW Ep) as [Hrb Hst]. eexists. split; [exact Hst|exact Hrb].
+    - destruct (wb_step_spur t e Hsp Ese) as (t' & E & Hsp'). exists t'. split; [exact E|apply RB_spur; exact Hsp']. }
+  destruct HR as [Hsp|HB]; [congruence|].
+  pose proof (I_pre _ HI) as Hpre. pose proof HW as [Hw Hfl].
   unfold step_proc, proc_dispatch, die_p, guard in H.
-  inv_step H; inv_helpers; injection H as <-; subst; cbn [pre_setup pre_loop] in Hps, Hpre;
-    destruct HB as (Hw & Hineq & Hpc); cbn [credit] in Hineq.
+  inv_step H; inv_helpers; injection H as <-; subst; cbn [pre_loop early] in Hpre, Hfl;
+    destruct HB as (Hineq & Hpc); cbn [credit] in Hineq.
   all: try (cbn [wb_step]; eexists; split; [reflexivity|]; rb_easy; fail).
   - (* Rx Puback before CONNECT *)
     destruct (wb_rx_ack t g (Puback id) id (or_introl eq_refl)) as [(En & -> & Hl)| ->];
       (eexists; split; [reflexivity|]); [|left; reflexivity].
     right; bcsimpl; cbn [credit held deq_busy wb_w wb_fl wb_spur]; repeat split; first [assumption|lia|exact I].
+  - (* Rx Pubrec before CONNECT *)
+    cbn [wb_step]. destruct (nmem id (wb_fl t)); (eexists; split; [reflexivity|]); [rb_easy|left; reflexivity].
   - destruct (wb_rx_ack t g (Pubcomp id) id (or_intror eq_refl)) as [(En & -> & Hl)| ->];
       (eexists; split; [reflexivity|]); [|left; reflexivity].
     right; bcsimpl; cbn [credit held deq_busy wb_w wb_fl wb_spur]; repeat split; first [assumption|lia|exact I].
   - (* Setup *)
-    cbn [wb_step]. eexists; split; [reflexivity|].
-    destruct (Hpre eq_refl) as [Hd _]. pose proof (Hps eq_refl) as Hc0.
-    assert (Hfl : wb_fl t = []). { destruct (wb_fl t); [reflexivity|]. cbn [length] in Hineq. lia. }
-    destruct fresh; right; bcsimpl; cbn [credit held deq_busy wb_w wb_fl wb_spur]; rewrite ?Hd, ?Hfl;
-      cbn [held deq_busy length]; repeat split; lia.
+    match goal with Hp : Conn.pp s = PSetup _ |- _ =>
+      destruct (RB_setup s t c g resumed fresh w pp ps HI HW Hp) as [Hrb Hst] end.
+    eexists. split; [exact Hst|exact Hrb].
   - (* All *)
     cbn [wb_step]. eexists; split; [reflexivity|].
-    destruct Hh as (u' & Hh). cbn [rf_step] in Hh. destruct (N.leb_spec (N.of_nat (npub l)) (cw s)) as [Hle|]; [|discriminate Hh].
+    pose proof (Hh g l eq_refl) as Hle. pose proof (Hfl eq_refl) as Hn.
     destruct l; right; bcsimpl; cbn [credit]; repeat split; try assumption; try exact I.
-    rewrite Hpc. cbn [length]. lia.
+    rewrite Hn. cbn [length] in *. lia.
   - (* Resend ok *)
     destruct (Hpre eq_refl) as [Hd _]. rewrite Hd in Hineq. cbn [held deq_busy] in Hineq.
-    match goal with Hq : packet_eqb _ _ = true |- _ => pose proof (set_dup_is_publish _ _ Hq) as Hip end.
-    rewrite npub_cons in Hpc.
-    assert (Hnext : forall t', wb_w t' = cw s ->
+    match goal with Hq : packet_eqb _ _ = true |- _ => pose proof (counted_set_dup _ _ Hq) as Hip end.
+    cbn [length] in Hpc.
+    assert (Hnext : forall t', 
               N.of_nat (length (wb_fl t')) + tdeq (take_deq_if_any s) <= cw s ->
-              N.of_nat (length (wb_fl t')) + N.of_nat (npub l) <= cw s ->
+              N.of_nat (length (wb_fl t')) + N.of_nat (length l) <= cw s ->
               RB (set_pp (sess_save (take_deq_if_any s) Outgoing (set_dup p))
                          match l with [] => PRestore | _ :: _ => PResend l end) t').
-    { intros t' H1 H2 H3. right. unfold take_deq_if_any, take_deq in *.
+    { intros t' H2 H3. right. unfold take_deq_if_any, take_deq in *.
       destruct (0 <? tdeq s); destruct l; bcsimpl; rewrite ?Hd; cbn [credit held deq_busy];
         repeat split; first [assumption|lia|exact I]. }
     assert (Htd : tdeq (take_deq_if_any s) <= tdeq s /\ (0 < tdeq s -> tdeq (take_deq_if_any s) + 1 = tdeq s)).
     { unfold take_deq_if_any, take_deq. destruct (N.ltb_spec 0 (tdeq s)); bcsimpl; lia. }
-    destruct (wb_tx_cases t g p0 true) as [(E & _)|(d & m & id & fl & -> & _ & Hfl & E)]; rewrite E.
-    + eexists; split; [reflexivity|]. apply Hnext; [exact Hw| |destruct (is_publish p)]; lia.
-    + cbn [is_publish] in Hip. rewrite <- Hip in Hpc.
-      assert (Hb : N.of_nat (length fl) <= cw s) by lia.
+    rewrite wb_tx_ok. destruct (counted_id p0) as [id|].
+    + pose proof (fl_add_length id (wb_fl t)) as Hfa.
+      assert (Hb : N.of_nat (length (fl_add id (wb_fl t))) <= cw s) by lia.
       rewrite <- Hw in Hb. apply N.leb_le in Hb. rewrite Hb, orb_true_r.
-      eexists; split; [reflexivity|]. apply Hnext; cbn [wb_w wb_fl]; [exact Hw| |lia].
+      eexists; split; [reflexivity|]. apply Hnext; cbn [wb_w wb_fl]; [|lia].
       destruct (N.eq_dec (tdeq s) 0); lia.
+    + eexists; split; [reflexivity|]. apply Hnext; lia.
   - (* Resend fail *)
     destruct (Hpre eq_refl) as [Hd _]. rewrite Hd in Hineq. cbn [held deq_busy] in Hineq.
-    assert (E : wb_step t (ETx g p0 true false) = Some t) by (destruct p0; reflexivity).
-    rewrite E. eexists; split; [reflexivity|]. right. unfold take_deq_if_any, take_deq.
+    rewrite wb_tx_fail. eexists; split; [reflexivity|]. right. unfold take_deq_if_any, take_deq.
     destruct (N.ltb_spec 0 (tdeq s)); bcsimpl; rewrite ?Hd; cbn [credit held deq_busy]; repeat split;
       first [assumption|lia|exact I].
   - (* Rx Puback in the loop *)
     destruct (wb_rx_ack t g (Puback id) id (or_introl eq_refl)) as [(En & -> & Hl)| ->];
       (eexists; split; [reflexivity|]); [|left; reflexivity].
     right; bcsimpl; cbn [credit held deq_busy wb_w wb_fl wb_spur]; repeat split; first [assumption|lia|exact I].
+  - (* Rx Pubrec in the loop *)
+    cbn [wb_step]. destruct (nmem id (wb_fl t)) eqn:En; (eexists; split; [reflexivity|]); [|left; reflexivity].
+    right; bcsimpl; cbn [credit held deq_busy]; repeat split; first [assumption|lia|exact I].
   - destruct (wb_rx_ack t g (Pubcomp id) id (or_intror eq_refl)) as [(En & -> & Hl)| ->];
       (eexists; split; [reflexivity|]); [|left; reflexivity].
     right; bcsimpl; cbn [credit held deq_busy wb_w wb_fl wb_spur]; repeat split; first [assumption|lia|exact I].
+  - (* RelTx ok: the id is in flight already *)
+    match goal with Hq : (_ =? _) = true |- _ => apply N.eqb_eq in Hq; subst end.
+    rewrite wb_tx_ok. cbn [counted_id]. unfold fl_add. rewrite Hpc.
+    assert (Hb : N.of_nat (length (wb_fl t)) <= cw s) by lia.
+    rewrite <- Hw in Hb. apply N.leb_le in Hb. rewrite Hb, orb_true_r.
+    eexists; split; [reflexivity|]. right; bcsimpl; cbn [credit held deq_busy wb_w wb_fl wb_spur]; repeat split;
+      first [assumption|lia|exact I].
 Qed.
 
-Lemma step_deq_newconn s : step_deq s ENewConn = None.
-Proof. unfold step_deq. destruct (dp s); reflexivity. Qed.
+Lemma step_deq_not_setup s e s' : step_deq s e = Some s' -> is_setup_ok e = false.
+Proof. unfold step_deq. destruct (dp s), e; try discriminate; reflexivity. Qed.
 
-Lemma RB_deq s t e s' : INV s -> RB s t -> step_deq s e = Some s' ->
+Lemma RB_deq s t e s' : INV s -> RW s t -> RB s t -> step_deq s e = Some s' ->
   exists t', wb_step t e = Some t' /\ RB s' t'.
 Proof.
-  intros HI HR H.
+  intros HI [Hw _] HR H.
   destruct HR as [Hsp|HB].
-  { destruct (wb_step_spur t e Hsp) as (t' & E & Hsp').
-    - intros ->. rewrite step_deq_newconn in H. discriminate H.
-    - exists t'. split; [exact E|apply RB_spur; exact Hsp']. }
-  pose proof (I_shape _ HI) as Hsh. unfold step_deq, guard in H.
+  { destruct (wb_step_spur t e Hsp (step_deq_not_setup _ _ _ H)) as (t' & E & Hsp').
+    exists t'. split; [exact E|apply RB_spur; exact Hsp']. }
+  pose proof (I_shape _ HI) as Hsh.
+  assert (Hnp : pre_loop (pp s) = false).
+  { destruct (pre_loop (pp s)) eqn:Ep; [|reflexivity]. destruct (I_pre _ HI Ep) as [Hd _].
+    unfold step_deq in H. rewrite Hd in H. discriminate H. }
+  assert (Hphase : forall fl, (forall id, nmem id (wb_fl t) = true -> nmem id fl = true) ->
+            match pp s with
+            | PResend rest => N.of_nat (length fl) + N.of_nat (length rest) <= cw s
+            | PRecSave id | PRelTx id => nmem id fl = true
+            | _ => True end).
+  { intros fl Hsub. destruct HB as (_ & Hpc). destruct (pp s); try exact I; try discriminate Hnp; apply Hsub; exact Hpc. }
+  unfold step_deq, guard in H.
   inv_step H; inv_helpers; injection H as <-; subst; cbn [dp_shape] in Hsh;
-    destruct HB as (Hw & Hineq & Hpc); cbn [held deq_busy] in Hineq.
+    destruct HB as (Hineq & Hpc); cbn [held deq_busy] in Hineq.
   all: try (cbn [wb_step]; eexists; split; [reflexivity|]; rb_easy; fail).
   - cbn [wb_step]. eexists; split; [reflexivity|]. destruct backack; rb_easy.
   - cbn [wb_step]. eexists; split; [reflexivity|]. destruct ba; rb_easy.
   - (* Send ok *)
     destruct Hsh as (m & id & ->).
     match goal with Hq : packet_eqb _ _ = true |- _ => apply packet_eqb_publish_l in Hq; subst end.
-    destruct (wb_tx_cases t g (Publish false m id) true) as [(E & [Hf|(d & m' & id' & Hp & Hq)])|(d & m' & id' & fl & Hp & Hq & Hfl & E)];
-      rewrite E.
-    + discriminate Hf.
-    + injection Hp as <- <- <-. rewrite Hq. eexists; split; [reflexivity|]. rb_easy.
-    + assert (Hb : N.of_nat (length fl) <= cw s) by lia.
+    rewrite wb_tx_ok. cbn [counted_id]. destruct (m_qos m =? 0) eqn:Eq.
+    + eexists; split; [reflexivity|]. rb_easy.
+    + pose proof (fl_add_length id (wb_fl t)) as Hfa.
+      assert (Hb : N.of_nat (length (fl_add id (wb_fl t))) <= cw s) by lia.
       rewrite <- Hw in Hb. apply N.leb_le in Hb. rewrite Hb, orb_true_r.
-      eexists; split; [reflexivity|]. injection Hp as <- <- <-. rewrite Hq.
-      assert (Hnp : pre_loop (pp s) = false).
-      { destruct (pre_loop (pp s)) eqn:Ep; [|reflexivity]. destruct (I_pre _ HI Ep) as [Hd _]. congruence. }
-      right; bcsimpl; cbn [credit held deq_busy wb_w wb_fl wb_spur]; repeat split; [assumption|lia|].
-      destruct (pp s); try discriminate Hnp; exact I.
+      eexists; split; [reflexivity|].
+      right; bcsimpl; cbn [credit held deq_busy wb_w wb_fl wb_spur]; split; [lia|].
+      apply Hphase. intros id' Hin. unfold fl_add. destruct (nmem id (wb_fl t)); [exact Hin|].
+      cbn [nmem existsb]. unfold nmem in Hin. rewrite Hin. apply orb_true_r.
   - (* Send fail *)
-    assert (E : wb_step t (ETx g p0 true false) = Some t) by (destruct p0; reflexivity).
-    rewrite E. eexists; split; [reflexivity|]. rb_easy.
+    rewrite wb_tx_fail. eexists; split; [reflexivity|]. rb_easy.
 Qed.
 
 Lemma RB_frame s s' t :
   cw s' = cw s -> tdeq s' = tdeq s -> held (dp s') <= held (dp s) -> pp s' = pp s -> RB s t -> RB s' t.
 Proof.
-  intros Ec Et Eh Ep [Hsp|(Hw & Hineq & Hpc)]; [left; exact Hsp|right].
-  rewrite Ec, Et, Ep. repeat split; try assumption. lia.
+  intros Ec Et Eh Ep [Hsp|(Hineq & Hpc)]; [left; exact Hsp|right].
+  rewrite Ec, Et, Ep. split; [lia|exact Hpc].
 Qed.
 
 Lemma RB_same s s' t : same_pd s s' -> RB s t -> RB s' t.
@@ -290,9 +438,9 @@ Qed.
 
 Lemma RB_frozen s s' t : frozen s s' -> RB s t -> RB s' t.
 Proof.
-  intros Hf [Hsp|(Hw & Hineq & Hpc)]; [left; exact Hsp|right].
+  intros Hf [Hsp|(Hineq & Hpc)]; [left; exact Hsp|right].
   rewrite (fz_cw _ _ Hf), (fz_tdeq _ _ Hf), (fz_pp _ _ Hf), (fz_dp _ _ Hf). cbn [credit].
-  repeat split; try assumption; try exact I.
+  split; [|exact I].
   assert (held (match dp s with DOff => DOff | _ => DDone end) = 0) as -> by (destruct (dp s); reflexivity).
   lia.
 Qed.
@@ -300,42 +448,40 @@ Qed.
 Lemma RB_learned s s1 t : learned s s1 -> RB s t -> RB s1 t.
 Proof. intros [->|(g & _ & [[_ ->]|[[_ ->]|[[_ ->]|[_ ->]]]])] HR; exact HR. Qed.
 
+Lemma RW_learned s s1 t : learned s s1 -> RW s t -> RW s1 t.
+Proof. intros [->|(g & _ & [[_ ->]|[[_ ->]|[[_ ->]|[_ ->]]]])] HR; exact HR. Qed.
+
 Lemma wb_step_other t e :
   match e with ENewConn | ESetup _ _ | ETx _ _ _ _ | ERx _ _ => False | _ => True end -> wb_step t e = Some t.
 Proof. destruct e; try contradiction; reflexivity. Qed.
 
-Lemma wb_step_tx_nonpub t g p a ok : is_publish p = false -> wb_step t (ETx g p a ok) = Some t.
+Lemma ack_not_counted p : is_ack_packet p = true -> counted_id p = None.
 Proof. destruct p; try discriminate; reflexivity. Qed.
 
-Lemma ack_not_publish p : is_ack_packet p = true -> is_publish p = false.
-Proof. destruct p; try discriminate; reflexivity. Qed.
-
-Definition R_wb (s : bc) (t : wb_st) (u : N) : Prop := RA s u /\ RB s t.
-
-Lemma wb_step_ok s t u e s' u' : INV s -> R_wb s t u -> step s e = Some s' -> rf_step u e = Some u' ->
-  exists t', wb_step t e = Some t' /\ R_wb s' t' u'.
+(* the bound clause advances whenever the resume (if the event is one) fits *)
+Lemma RB_step s t e s' : INV s -> RW s t -> RB s t -> step s e = Some s' -> wb_spur t = true \/ fits s e ->
+  exists t', wb_step t e = Some t' /\ RB s' t'.
 Proof.
-  intros HI [HA HB] H Hh.
-  pose proof (RA_step _ _ _ _ _ HA H Hh) as HA'.
-  assert (HB' : exists t', wb_step t e = Some t' /\ RB s' t');
-    [|destruct HB' as (t' & E & HB'); exists t'; split; [exact E|split; assumption]].
-  apply step_inv in H.
+  intros HI HW HB H Hh. apply step_inv in H.
   destruct H as [He Ho ->|He Ho ->|He Hq ->|Hc|g s1 Hg Hl Hr Ho Hp|g s1 Hg Hl Hr Ho Hnp Hd
                 |g s1 Hg Hl Hr Ho Hnp Hnd Ha|g s1 Hg Hl Hr Ho Hc|He Hc|g He Ho ->].
-  - subst e. eexists. split; [reflexivity|]. right. bcsimpl. cbn [wb_w wb_fl length held deq_busy credit].
-    repeat split; try reflexivity; lia.
+  - subst e. eexists. split; [reflexivity|]. destruct (wb_spur t) eqn:Es; [left; reflexivity|right].
+    bcsimpl. cbn [wb_fl length held deq_busy credit]. split; [lia|exact I].
   - subst e. exists t. split; [reflexivity|exact HB].
   - subst e. exists t. split; [reflexivity|exact HB].
   - apply step_clo_sum in Hc as (He & Hs & _). exists t.
     split; [apply wb_step_other; destruct e; try contradiction; exact I|eapply RB_same; eassumption].
-  - eapply RB_proc; [eapply INV_learned; eassumption|eapply RA_learned; eassumption|eapply RB_learned; eassumption|exact Hp|].
-    exists u'. exact Hh.
-  - eapply RB_deq; [eapply INV_learned; eassumption|eapply RB_learned; eassumption|exact Hd].
+  - assert (Hh1 : wb_spur t = true \/ fits s1 e).
+    { destruct Hh as [Hh|Hh]; [left; exact Hh|right]. intros g' ps E. pose proof (Hh g' ps E) as Hle.
+      destruct Hl as [->|(g0 & _ & [[_ ->]|[[_ ->]|[[_ ->]|[_ ->]]]])]; exact Hle. }
+    eapply RB_proc; [eapply INV_learned; eassumption|eapply RW_learned; eassumption|eapply RB_learned; eassumption|exact Hp|exact Hh1].
+  - eapply RB_deq; [eapply INV_learned; eassumption|eapply RW_learned; eassumption|eapply RB_learned; eassumption|exact Hd].
   - pose proof (INV_learned _ _ Hl HI) as HI1. pose proof (step_ack_sum _ _ _ Ha) as (Hs & _ & He).
     exists t. split; [|eapply RB_same; [exact Hs|eapply RB_learned; eassumption]].
     destruct e; try contradiction; try reflexivity.
     destruct async; [|contradiction]. destruct He as (q' & Ht & _).
-    apply wb_step_tx_nonpub. apply ack_not_publish. eapply ackq_take_is_ack; [exact Ht|apply (I_ackq _ HI1)].
+    destruct ok; [|apply wb_tx_fail]. rewrite wb_tx_ok, ack_not_counted; [reflexivity|].
+    eapply ackq_take_is_ack; [exact Ht|apply (I_ackq _ HI1)].
   - apply step_cleanup_sum in Hc as (He & Hc). exists t.
     split; [apply wb_step_other; destruct e; try contradiction; exact I|].
     destruct Hc as [(Hs & _)|Hf]; [eapply RB_same|eapply RB_frozen]; try eassumption; eapply RB_learned; eassumption.
@@ -345,13 +491,23 @@ Proof.
   - subst e. exists t. split; [reflexivity|]. (eapply RB_frame; [| | | |exact HB]); reflexivity.
 Qed.
 
+Definition R_wb (s : bc) (t : wb_st) (u : N) : Prop := RA s u /\ RW s t /\ RB s t.
+
+Lemma wb_step_ok s t u e s' u' : INV s -> R_wb s t u -> step s e = Some s' -> rf_step u e = Some u' ->
+  exists t', wb_step t e = Some t' /\ R_wb s' t' u'.
+Proof.
+  intros HI (HA & HW & HB) H Hh.
+  destruct (RB_step s t e s' HI HW HB H (or_intror (fits_of_rf _ _ _ _ HA Hh))) as (t' & E & HB').
+  exists t'. split; [exact E|]. split; [eapply RA_step; eassumption|]. split; [eapply RW_step; eassumption|exact HB'].
+Qed.
+
+Lemma R_wb_init : R_wb bc_init (WbSt 0 [] false) 0.
+Proof. split; [reflexivity|]. split; [split; reflexivity|]. right. cbn. split; [lia|exact I]. Qed.
+
 (* the bound, for traces whose resumes fit the window *)
 Theorem c16_bound_partial_holds :
   forall es s, bc_run es = Some s -> c16_resume_fits es = true -> c16_bound es = true.
-Proof.
-  apply (scan2_sound wb_step rf_step INV R_wb INV_init INV_step wb_step_ok).
-  split; [split; [reflexivity|reflexivity]|]. right. cbn. repeat split. lia.
-Qed.
+Proof. exact (scan2_sound wb_step rf_step INV R_wb INV_init INV_step wb_step_ok _ _ R_wb_init). Qed.
 
 (* the unconditional bound is false *)
 Theorem c16_bound_refuted_holds : exists es s, bc_run es = Some s /\ c16_bound es = false.
